@@ -861,6 +861,52 @@ def c15(ctx):
                        "allowed-entry position); non-trivial = offset > 0")
 
 
+def run_chars(ctx, name, rng, k):
+    roles = Roles(ctx, rng)
+    t = ctx.tables
+    plain = rng.choice(roles.unranged)
+    syms = ["(", ")", "+", ":", " ", plain, "-", "x", "#", "-or-later", "-only", "LicenseRef-", "AND", "WITH"]
+    if ctx.tier == "thorough":
+        act = set(t["active"])
+        fold = [x for x in t["deprecated"] if not x.endswith("+") and x + "-or-later" in act]
+        syms += ["OR", "DocumentRef-", rng.choice(t["exceptions"])] + ([rng.choice(fold)] if fold else [])
+    ctx.write_params("MC_Chars_P", {"MaxSyms": str(k), "Symbols": tla_seq(syms)})
+    ctx.notes.append("%s: symbols %s, <= %d per string, no separators" % (name, syms, k))
+    r = ctx.run_tlc(name, "MC_Chars", "MC_Chars", timeout=3000, reps=2 if ctx.tier == "thorough" else 1)
+    if r["violated"]:
+        raise Infra("model-level invariant %s failed in MC_Chars with Dev = {} (specification problem, not a verdict)" % r["violated"])
+    return r
+
+
+def run_mut(ctx, name, rng, leaves):
+    roles = Roles(ctx, rng)
+    texts, universe, sel = roles.tree_roles()
+    ctx.write_params("MC_Tree_P", {"MaxLeaves": str(leaves), "LeafTexts": tla_seq(texts), "Universe": tla_seq(universe)})
+    ctx.notes.append("%s: mutations (every prefix, token deletion, token insertion) of every tree with <= %d leaves over %s" % (name, leaves, texts))
+    r = ctx.run_tlc(name, "MC_Mut", "MC_Mut", timeout=3000)
+    if r["violated"]:
+        raise Infra("model-level invariant %s failed in MC_Mut with Dev = {} (specification problem, not a verdict)" % r["violated"])
+    return r
+
+
+def run_extremes(ctx, thorough):
+    args = ["-depth", "200000" if thorough else "10000", "-terms", "5000" if thorough else "1500", "-long", "1000000" if thorough else "100000"]
+    p = subprocess.run([ctx.harness, "extremes"] + args, capture_output=True, text=True, timeout=1500)
+    try:
+        r = json.loads(p.stdout)
+    except ValueError:
+        # the process died (e.g. fatal stack overflow): that is a crash no recover() can see
+        ctx.mismatches.append({"what": "panic", "fn": "extremes", "expr": "", "list": args, "expected": "normal return",
+                               "observed": "process died rc=%d: %s" % (p.returncode, p.stderr[-1500:]), "source": "extremes"})
+        return
+    ctx.replayed += r["calls"]
+    for x in r.get("panics") or []:
+        ctx.mismatches.append({"what": "panic", "fn": x["fn"], "expr": x["case"], "list": [], "expected": "no panic", "observed": x, "source": "extremes"})
+    ctx.stages.append({"stage": "extremes", "kind": "nil/empty slices, nesting, long chains/ids/blank runs, byte soup through all entry points",
+                       "cases": r["cases"], "calls": r["calls"], "params": args})
+    ctx.assumptions.append("nesting is exercised up to depth %s; Go's 1 GB goroutine-stack limit is a fatal error beyond roughly 10^6 levels" % args[1])
+
+
 # --------------------------------------------------------------------------- C04
 def run_lists(ctx, name, rng, maxlist):
     roles = Roles(ctx, rng)
@@ -895,6 +941,8 @@ def c04(ctx):
     r = ctx.run_tlc("tok", "MC_Tok", "MC_Tok", timeout=3000)
     if r["violated"]:
         raise Infra("model-level invariant %s failed in MC_Tok" % r["violated"])
+    run_chars(ctx, "chars", rng, 4 if thorough else 3)
+    run_mut(ctx, "mut", rng, 3 if thorough else 2)
     ctx.drive("trace", "lists", 1000 if thorough else 300, leaves=5)
     ctx.validate_trace("trace")
     return finish(ctx, relevant=C04_WHATS,
@@ -916,8 +964,12 @@ def c03(ctx):
     run_lex(ctx, "lex3", rng, 3, [" "] if not thorough else [" ", "  "])
     if thorough:
         run_lex(ctx, "lex4", rng, 4, [" "], focus="core")
-    run_tree(ctx, "tree", rng, 4)
+    run_tree(ctx, "tree", rng, 4 if thorough else 3)
+    run_tree(ctx, "tree-sameid", rng, 3, "sameid")
     run_lists(ctx, "lists", rng, 3)
+    run_chars(ctx, "chars", rng, 4)
+    run_mut(ctx, "mut", rng, 3 if thorough else 2)
+    run_extremes(ctx, thorough)
     ctx.drive("trace", "invalid", 2000 if thorough else 500, leaves=8)
     ctx.validate_trace("trace")
     return finish(ctx, relevant={"panic"},
